@@ -146,6 +146,8 @@ pub struct GenCfg {
     pub count_star_in_subquery: bool,
     /// scalar (aggregate) subqueries anywhere
     pub scalar_subquery: bool,
+    /// NOT IN over a correlated subquery (the optimizer does not terminate for some statistics)
+    pub correlated_not_in: bool,
     pub max_depth: usize,
 }
 
@@ -192,6 +194,7 @@ impl GenCfg {
             correlated_scalar: true,
             count_star_in_subquery: true,
             scalar_subquery: true,
+            correlated_not_in: true,
             max_depth: 3,
         }
     }
@@ -750,7 +753,7 @@ impl<'a, 'b> Gen<'a, 'b> {
                 E::Bin(op.into(), Box::new(a), Box::new(b))
             }
             2 => {
-                let sub_ok = allow_sub && self.cfg.not_in_subq;
+                let sub_ok = allow_sub && self.cfg.not_in_subq && self.cfg.correlated_not_in;
                 E::Not(Box::new(self.expr(scope, outer, Ty::Bool, depth + 1, sub_ok)))
             }
             3 => {
@@ -776,7 +779,12 @@ impl<'a, 'b> Gen<'a, 'b> {
                 let ty = [Ty::Int, Ty::Int, Ty::Str][self.t.pick(3)];
                 let a = self.expr(scope, outer, ty, depth + 1, false);
                 let neg = self.cfg.not_in_subq && self.t.pick(3) == 2;
+                let saved = self.cfg.correlated;
+                if neg && !self.cfg.correlated_not_in {
+                    self.cfg.correlated = false;
+                }
                 let q = self.subquery(scope, outer, Some(ty), depth + 1);
+                self.cfg.correlated = saved;
                 E::InSub(Box::new(a), Box::new(q), neg)
             }
             _ => {
@@ -1262,6 +1270,30 @@ impl<'a, 'b> Gen<'a, 'b> {
                         }
                     }
                 }
+            } else {
+                // group keys: plain columns only (the same replacement in the select list)
+                let keys = q.group_by.clone();
+                let mut new_keys: Vec<E> = vec![];
+                for k in &keys {
+                    let nk = if matches!(k, E::Col(..)) { Some(k.clone()) } else { first_col(k) };
+                    for item in q.select.iter_mut() {
+                        if &item.0 == k {
+                            if let Some(E::Col(a, c, ty)) = &nk {
+                                item.1 = *ty;
+                                item.0 = E::Col(a.clone(), c.clone(), *ty);
+                            }
+                        }
+                    }
+                    if let Some(nk) = nk {
+                        if !new_keys.contains(&nk) {
+                            new_keys.push(nk);
+                        }
+                    } else {
+                        new_keys.push(k.clone());
+                    }
+                }
+                q.group_by = new_keys;
+                q.order_by.clear();
             }
         }
         q
